@@ -217,10 +217,27 @@ package syncer
 
 // ---------------------------------------------------------------- syncLoop
 
+// The set of instances still awaited is abstract: Contains is a function of
+// the set's version (bumped by every mutator) and the name.
 //@ func (is *InstanceSet) Contains
 //@   trusted
-//@   pure
+//@   function reads ghost_isVer
 //@   ghost lastContains := ite(r0, 1, 0)
+//@ func (is *InstanceSet) Add
+//@   trusted
+//@   modifies ghost_isVer
+//@ func (is *InstanceSet) Remove
+//@   trusted
+//@   modifies ghost_isVer
+//@ func (is *InstanceSet) CleanDisappeared
+//@   trusted
+//@   modifies ghost_isVer
+//@ func (is *InstanceSet) Done
+//@   trusted
+//@   pure
+//@ func (is *InstanceSet) String
+//@   trusted
+//@   pure
 
 //@ func (s *Syncer) syncLoop
 //@   requires inv: ghostInv()
@@ -244,7 +261,7 @@ package syncer
 //@   after_call syncer.(*InstanceSet).Contains#2 ghost loc_prevSynced := uint64(lastSyncedTxnID)
 //@   at_call receiver.(*Receiver).RunOnce#0 assert initial_listing_includes_own: arg2
 //@   at_call syncer.(*Syncer).SendOnce#0 assert no_snapshot_exists_yet: hasDataAtStart && !hasSnapshots
-//@   at_call syncer.(*Syncer).SendOnce#1 assert own_old_snapshot_loaded_first: ghost_loc_waitOwn == 0
+//@   at_call syncer.(*Syncer).SendOnce#1 assert own_old_snapshot_loaded_first: !waitingForInstances.Contains(ownInstanceID)
 //@   at_call syncer.(*Syncer).SendOnce#1 assert local_change_startup_or_forced: snapshotOverdue || ghost_loc_prevSynced == 0 || ghost_lastApp > ghost_loc_prevSynced
 //@   noswallow
 //@   at_call utils.SleepContext#0 assert idle_published: !s.opt.ReceiveOnly && ghost_loc_info <= uint64(lastSyncedTxnID) ==> ghost_unpub > ghost_loc_info
@@ -292,6 +309,7 @@ package syncer
 //@   after_call lmdb.(*Cursor).Get#0 ghost loc_got := ite(ret2 == nil, 1, 0)
 //@   after_call snapshot.(*DBI).Append#0 ghost loc_got := 0
 //@   loop 0 invariant every_entry_appended: ghost_loc_got == 0
+//@   loop 0 invariant names_fit: len(dbiMsg.name) <= 511 && len(dbiMsg.transform) <= 64
 //@   at_call snapshot.(*DBI).SetName#0 assert original_name: arg1 == origDBIName
 //@   at_call snapshot.(*DBI).SetTransform#0 assert transform_iff_dupsort: isDupSort
 //@   at_call snapshot.(*DBI).SetFlags#0 assert original_flags: arg1 == uint64(dbiFlags) && iff(isDupSort, dbiFlags & 4 != 0)
